@@ -15,6 +15,8 @@ import (
 	"sort"
 	"strconv"
 	"strings"
+	"sync"
+	"time"
 
 	fh2 "github.com/imroc/req/v3/internal/http2"
 	fh3 "github.com/imroc/req/v3/internal/http3"
@@ -229,5 +231,186 @@ func runHeaderMap(r *hk.Run, rng *hk.Rand) {
 			}
 			r.Add(hk.Case{Desc: desc}, "hm|"+v, true)
 		}
+	}
+}
+
+// ---------- one request writer per connection: sequences and interleavings ----------
+
+// gateWriter parks inside its k-th Write (a stream waiting for flow-control credit) until released.
+type gateWriter struct {
+	mu      sync.Mutex
+	b       []byte
+	k, n    int
+	entered chan struct{}
+	release chan struct{}
+}
+
+func (g *gateWriter) Write(p []byte) (int, error) {
+	g.mu.Lock()
+	g.n++
+	park := g.n == g.k
+	g.mu.Unlock()
+	if park {
+		close(g.entered)
+		<-g.release
+	}
+	g.mu.Lock()
+	g.b = append(g.b, p...)
+	g.mu.Unlock()
+	return len(p), nil
+}
+
+type collector struct{ b []byte }
+
+func (c *collector) Write(p []byte) (int, error) { c.b = append(c.b, p...); return len(p), nil }
+
+func writerRequest(rng *hk.Rand, tag string) *http.Request {
+	method := hk.Pick(rng, []string{"GET", "POST", "HEAD", "PUT"})
+	req, _ := http.NewRequest(method, "https://"+tag+".example"+hk.Pick(rng, []string{"/", "/a/b?c=d", "/" + tag}), nil)
+	req.Header.Set("User-Agent", "ua-"+tag)
+	for j, k := 0, rng.Intn(5); j < k; j++ {
+		req.Header.Add(hk.Pick(rng, encNames[:8]), hk.Pick(rng, encValues[:9])+tag)
+	}
+	return req
+}
+
+// decodeHeadersFrame: reference varint reader + reference QPACK decoder; returns the field section
+// and the rendered fields.
+func decodeHeadersFrame(wire []byte) (section []byte, fields string, err error) {
+	ro := refNext(wire)
+	if ro.Err != "" || ro.Kind != "headers" {
+		return nil, "", fmt.Errorf("not a HEADERS frame: %s", ro.key())
+	}
+	if int(ro.Length) != ro.Left {
+		return nil, "", fmt.Errorf("HEADERS frame announces %d bytes, %d follow", ro.Length, ro.Left)
+	}
+	section = wire[len(wire)-ro.Left:]
+	hfs, derr := qpack.NewDecoder(nil).DecodeFull(section)
+	if derr != nil {
+		return section, "", fmt.Errorf("qpack: %v", derr)
+	}
+	var sb strings.Builder
+	for _, hf := range hfs {
+		fmt.Fprintf(&sb, "%s=%s;", hf.Name, hf.Value)
+	}
+	return section, sb.String(), nil
+}
+
+func runRequestWriter(r *hk.Run, rng *hk.Rand) {
+	fresh := func(req *http.Request) ([]byte, []byte, string) {
+		out, err := fh3.VerifWriteRequestHeaders(req, false)
+		if err != nil {
+			return nil, nil, ""
+		}
+		sec, fields, derr := decodeHeadersFrame(out)
+		if derr != nil {
+			return nil, nil, ""
+		}
+		return out, sec, fields
+	}
+	// (the regular fields come out in Go's map order: compared as multisets; the section handed to
+	// the model is the one actually on the wire when it decodes, so the model checks the framing)
+	sortFields := func(f string) string {
+		xs := strings.Split(f, ";")
+		sort.Strings(xs)
+		return strings.Join(xs, ";")
+	}
+	check := func(sig string, desc map[string]interface{}, who string, got []byte, req *http.Request) []byte {
+		want, sec, wantFields := fresh(req)
+		if want == nil {
+			return nil
+		}
+		gotSec, gotFields, derr := decodeHeadersFrame(got)
+		if derr != nil || sortFields(gotFields) != sortFields(wantFields) || len(got) != len(want) {
+			r.Fail(hk.Failure{Sig: sig, What: "a request's HEADERS frame written through the connection's shared request writer does not decode (reference varint reader + quic-go/qpack) to that request's fields", Input: desc,
+				Got: fmt.Sprintf("request %s: %x  fields %q err %v", who, capBytes(got, 200), gotFields, derr), Want: fmt.Sprintf("%x  fields %q", capBytes(want, 200), wantFields)})
+			return sec
+		}
+		return gotSec
+	}
+	// (1) sequences of 2..6 requests, one after the other, on one writer: nothing of a request
+	//     stays behind in the shared buffer / encoder
+	for i := 0; i < r.Scale(300, 20000); i++ {
+		w := fh3.VerifNewRequestWriter()
+		k := rng.Range(2, 6)
+		for j := 0; j < k; j++ {
+			req := writerRequest(rng, fmt.Sprintf("s%d-%d", i, j))
+			var c collector
+			err := w.WriteHeaders(&c, req, false)
+			desc := map[string]interface{}{"kind": "h3-writer-seq", "position": j, "url": req.URL.String(), "header": fmt.Sprint(req.Header)}
+			r.Count("enc.h3.writer.seq")
+			if err != nil {
+				r.Fail(hk.Failure{Sig: "enc:h3:writer-seq:error", What: "writeHeaders refused a valid request", Input: desc, Got: err.Error()})
+				continue
+			}
+			sec := check("enc:h3:writer-seq", desc, fmt.Sprint(j), c.b, req)
+			cs := hk.Case{Desc: desc}
+			if sec != nil && (i < 40 || j == k-1) {
+				cs.Coq = fmt.Sprintf("H3WriteFrame %s %s", hk.CoqBytes(sec), hk.CoqBytes(c.b))
+			}
+			r.Add(cs, fmt.Sprint("h3ws|", i, j, req.URL, req.Header), true)
+		}
+	}
+	// (2) interleavings: request A is parked inside its k-th Write to the stream (k = 1: the frame
+	//     header, k = 2: the field section) while requests B (and C) are started on the same writer.
+	//     They have to wait for A or at least leave every frame intact; B gets 40 ms to try (if it is
+	//     rightly blocked, the wait simply expires - no assertion depends on the duration).
+	for i := 0; i < r.Scale(24, 400); i++ {
+		k := 1 + i%2
+		third := i%4 >= 2
+		w := fh3.VerifNewRequestWriter()
+		reqA, reqB, reqC := writerRequest(rng, fmt.Sprintf("a%d", i)), writerRequest(rng, fmt.Sprintf("b%d", i)), writerRequest(rng, fmt.Sprintf("c%d", i))
+		gate := &gateWriter{k: k, entered: make(chan struct{}), release: make(chan struct{})}
+		var outB, outC collector
+		errA, errB, errC := make(chan error, 1), make(chan error, 1), make(chan error, 1)
+		desc := map[string]interface{}{"kind": "h3-writer-interleaved", "parked_in_write": k, "three": third, "a": reqA.URL.String(), "b": reqB.URL.String()}
+		r.Count(fmt.Sprintf("enc.h3.writer.interleaved.park%d", k))
+		go func() { errA <- w.WriteHeaders(gate, reqA, false) }()
+		select {
+		case <-gate.entered:
+		case <-time.After(20 * time.Second):
+			r.Count("enc.h3.writer.interleaved.a-never-parked")
+			close(gate.release)
+			<-errA
+			continue
+		}
+		go func() { errB <- w.WriteHeaders(&outB, reqB, false) }()
+		if third {
+			go func() { errC <- w.WriteHeaders(&outC, reqC, false) }()
+		} else {
+			errC <- nil
+		}
+		var eB error
+		bDone := false
+		select {
+		case eB = <-errB:
+			bDone = true
+			r.Count("enc.h3.writer.interleaved.b-overtook-a")
+		case <-time.After(40 * time.Millisecond):
+		}
+		close(gate.release)
+		eA := <-errA
+		if !bDone {
+			eB = <-errB
+		}
+		eC := <-errC
+		if eA != nil || eB != nil || eC != nil {
+			r.Fail(hk.Failure{Sig: "enc:h3:writer-interleaved:error", What: "writeHeaders failed", Input: desc, Got: fmt.Sprint(eA, eB, eC)})
+			continue
+		}
+		gate.mu.Lock()
+		wireA := append([]byte(nil), gate.b...)
+		gate.mu.Unlock()
+		sig := fmt.Sprintf("enc:h3:writer-interleaved:park%d", k)
+		secA := check(sig, desc, "A", wireA, reqA)
+		secB := check(sig, desc, "B", outB.b, reqB)
+		if third {
+			check(sig, desc, "C", outC.b, reqC)
+		}
+		cs := hk.Case{Desc: desc}
+		if secA != nil && secB != nil {
+			cs.Coq = fmt.Sprintf("H3Writer %d %s %s %s %s", k, hk.CoqBytes(secA), hk.CoqBytes(secB), hk.CoqBytes(wireA), hk.CoqBytes(outB.b))
+		}
+		r.Add(cs, fmt.Sprint("h3wi|", i, k, third), true)
 	}
 }
